@@ -1,7 +1,7 @@
 (** C17 - the file store never exposes or keeps a partial node.
     Statements only; the step model and its proofs are in Backend.v. *)
 From Coq Require Import List NArith Bool.
-From Mast Require Import Prim Backend.
+From Mast Require Import Prim Backend BackendHist.
 Import ListNotations.
 
 (** In the step model of the repaired Store (Stat; CreateTemp; Write; Close; Chmod; Rename), for
@@ -23,6 +23,33 @@ Theorem C17_success_complete : forall d n b tmp st,
   dlookup (fst (store_fixed d n b tmp st)) (FNode n) = Some b.
 Proof. exact C17_success_complete_model. Qed.
 
+(** Over histories: ANY sequence of Store calls on one directory - any names (each name has the one
+    byte string [content n]: names are content hashes), each call stopped at any of the points above -
+    starting from the empty directory.  Whatever a Load of a node name returns is the complete node, *)
+Theorem C17_load_never_partial : forall (content : name -> bytes) l n x,
+  dlookup (fold_left (run_att content) l []) (FNode n) = Some x -> x = content n.
+Proof. exact load_never_partial. Qed.
+
+(** every name is absent or complete after every history (from any directory where that holds), *)
+Theorem C17_history_sound : forall (content : name -> bytes) l d, all_sound content d -> all_sound content (fold_left (run_att content) l d).
+Proof. exact history_sound. Qed.
+
+(** and once a Store of a name has run to completion - after whatever interrupted attempts - the node is
+    there, complete, after every later history of interrupted, failed and completed calls. *)
+Theorem C17_completed_store_is_durable : forall (content : name -> bytes) l1 tmp l2 n,
+  dlookup (fold_left (run_att content) (l1 ++ Att n tmp Completed :: l2) []) (FNode n) = Some (content n).
+Proof. exact completed_store_is_durable. Qed.
+
+(** non-vacuity: cut after one byte, cut before the rename, an I/O error after two bytes - the name is
+    still absent, a temporary file holds the one byte - and then a complete call *)
+Example C17_crash_history :
+  let c : name -> bytes := fun _ => [1%N; 2%N; 3%N] in
+  let nm : name := [65%N] in
+  let d := fold_left (run_att c) [Att nm 1 (CrashDuringWrite 1); Att nm 2 CrashBeforeRename; Att nm 3 (ErrorDuringWrite 2)] [] in
+  dlookup d (FNode nm) = None /\ dlookup d (FTmp 1) = Some [1%N] /\
+  dlookup (run_att c d (Att nm 4 Completed)) (FNode nm) = Some [1%N; 2%N; 3%N].
+Proof. exact crash_history. Qed.
+
 (** PARTIAL: atomicity of rename(2), that a file under a ".tmp-*" name is never taken for a node, and
     the absence of torn metadata are assumptions of the step model; power loss / fsync are out of
     scope.  The model is tied to persist/file by the crash sweep (every byte offset, I/O error and
@@ -30,3 +57,6 @@ Proof. exact C17_success_complete_model. Qed.
 Print Assumptions C17_atomic.
 Print Assumptions C17_repair.
 Print Assumptions C17_success_complete.
+Print Assumptions C17_load_never_partial.
+Print Assumptions C17_history_sound.
+Print Assumptions C17_completed_store_is_durable.
